@@ -395,6 +395,50 @@ func init() {
 		"(*sync.WaitGroup).Add", "(*sync.WaitGroup).Done", "(*sync.WaitGroup).Wait"} {
 		reg(n, nop)
 	}
+	// sync.Pool, sequentially: Get hands out the object put last (or New()); an
+	// object that has been Put belongs to the pool: every later access to memory
+	// reachable from it (until a Get hands it out again) is counted as a
+	// use-after-put (another goroutine may own the object by then).
+	poolKey := func(p Ptr) string { return fmt.Sprintf("pool:%d", p.C.ID) }
+	reg("(*sync.Pool).Put", func(m *Machine, fn *ssa.Function, a []Value) Value {
+		p := a[0].(Ptr)
+		if iv, ok := a[1].(Iface); ok && iv.T == nil {
+			return nil
+		}
+		lst, _ := m.ext[poolKey(p)].([]Value)
+		m.ext[poolKey(p)] = append(lst, a[1])
+		m.colourValue(a[1], "$pooled", map[*Cell]bool{})
+		if m.readHook == nil {
+			m.readHook = func(c *Cell) {
+				if c.Col == "$pooled" {
+					m.pooledAccess++
+					if len(m.changedWhere) < 8 && len(m.stack) > 0 {
+						m.changedWhere = append(m.changedWhere, m.stack[len(m.stack)-1]+" reads an object after sync.Pool.Put")
+					}
+				}
+			}
+		}
+		return nil
+	})
+	reg("(*sync.Pool).Get", func(m *Machine, fn *ssa.Function, a []Value) Value {
+		p := a[0].(Ptr)
+		if lst, _ := m.ext[poolKey(p)].([]Value); len(lst) > 0 {
+			x := lst[len(lst)-1]
+			m.ext[poolKey(p)] = lst[:len(lst)-1]
+			m.colourValue(x, "", map[*Cell]bool{})
+			return x
+		}
+		// Pool.New, if set
+		st := p.C.T.Underlying().(*types.Struct)
+		for i := 0; i < st.NumFields(); i++ {
+			if st.Field(i).Name() == "New" {
+				if cl, ok := m.load(p.C.Kids[i]).(*Closure); ok && cl != nil {
+					return m.CallClosure(cl)
+				}
+			}
+		}
+		return Iface{}
+	})
 	reg("(*sync.Once).Do", func(m *Machine, fn *ssa.Function, a []Value) Value {
 		p := a[0].(Ptr)
 		key := fmt.Sprintf("once:%d", p.C.ID)
@@ -510,6 +554,18 @@ func init() {
 		m.addPC(m.ctx.And(m.ctx.Ule(m.ctx.BV(1, 64), n), m.ctx.Ule(n, m.ctx.BV(64, 64))))
 		return n
 	}
+	// regexp is not executed: a compiled expression is an opaque non-nil object
+	// (package initialisers of modelled libraries compile theirs; using one is not encodable)
+	compiled := func(m *Machine, fn *ssa.Function, a []Value) Value {
+		pt := fn.Signature.Results().At(0).Type().(*types.Pointer)
+		p := Ptr{C: m.newCell(pt.Elem())}
+		if fn.Signature.Results().Len() == 2 {
+			return Tuple{p, Iface{}}
+		}
+		return p
+	}
+	reg("regexp.MustCompile", compiled)
+	reg("regexp.Compile", compiled)
 	reg("runtime.GOMAXPROCS", cpus)
 	reg("runtime.NumCPU", cpus)
 	reg("time.Now", func(m *Machine, fn *ssa.Function, a []Value) Value {
